@@ -64,8 +64,14 @@ def trap_bytes(big=False):
     return vber.enc_community_message(1, b"public", vber.enc_pdu(vber.PDU_TRAP, 99, 0, 0, vbs))
 
 
-async def _op(client, what):
+async def _op(client, what, py=False):
     O = vworld.OID
+    if py:
+        # the same exchange through the pythonic wrapper (which converts every value it hands out)
+        w = vworld.PyWrapper(client)
+        if what in ("get", "error", "report"):
+            return await w.get(vagent.S(SC))
+        return await w.multiget([vagent.S(SC), "1.3.6.1.2.1.2.1.0"])
     if what in ("get", "error", "report"):
         return vworld.observe(await client.get(O(SC)))
     if what in ("multiget", "big"):
@@ -104,7 +110,7 @@ def base_bytes(base):
     path, pk, what = base
     if path == "trap":
         out = trap_bytes(what == "trap_big")
-    elif path == "udp":
+    elif path in ("udp", "pyresponse"):
         out = base_bytes(("response", pk, what))
     else:
         agent, client = vworld.make_world(PROTOS[pk], dict(DB), request_cap=20)
@@ -174,11 +180,55 @@ def mutate(data, mut):
             return vber.enc_community_message(f["v"], b"public", pdu)
         usm = vber.enc_usm_params(b"\x80\x00\x1f\x88\x80verif-agent", 3, 1000, b"", b"", b"")
         return vber.enc_v3_message(0x6553F100, 65507, 0, 3, usm, vber.enc_scoped_pdu(b"\x80\x00\x1f\x88\x80verif-agent", b"", pdu))
+    if k == "overlap":
+        return None      # needs the base: built by overlap_mutant()
     if k == "raw":
         return bytes.fromhex(mut[1])
     if k == "tree":
         return build_tree(mut[1])
     raise ValueError(k)
+
+
+def overlap_chain(k, tail=b"\x05\x00"):
+    """k levels of `30 02 30 L`: a two-octet SEQUENCE holding only the HEADER of a child whose announced content lies beyond
+    its parent's end -- the same octets are a child of the inner and of the outer sequence (x690 checks a child's length
+    against the end of the datagram only)"""
+    body = tail
+    for _ in range(k):
+        if len(body) > 127:
+            break
+        body = b"\x30\x02\x30" + bytes([len(body)]) + body
+    return body
+
+
+def overlap_mutant(base, data, k, where):
+    """the base datagram with the VALUE of its first binding (or its whole binding list) replaced by an overlap chain"""
+    path = base[0]
+    val = vber.tlv(vber.T_SEQ, overlap_chain(k))
+
+    def pdu_with(p):
+        head = vber.enc_int(p["rid"]) + vber.enc_int(p["f1"]) + vber.enc_int(p["f2"])
+        if where == "list":
+            return vber.tlv(p["tag"], head + val)
+        vbs = p["vbs"] or [(SC, vber.T_NULL, b"")]
+        first = vber.tlv(vber.T_SEQ, vber.enc_oid(vbs[0][0]) + val)
+        rest = b"".join(vber.enc_varbind(o, t, c) for o, t, c in vbs[1:])
+        return vber.tlv(p["tag"], head + vber.tlv(vber.T_SEQ, first + rest))
+
+    try:
+        if path == "inner":
+            tag, c = vber.read_one(data)
+            return pdu_with(vber.parse_pdu(tag, c))
+        m = vber.parse_message(data)
+    except vber.BerError:
+        return None
+    if m["version"] in (0, 1):
+        return vber.enc_community_message(m["version"], m["community"], pdu_with(m["pdu"]))
+    if "pdu" not in m or m["flags"] & 1:
+        return None       # encrypted / authenticated on the wire: nobody without the key can build it ("inner" covers it)
+    usm = vber.enc_usm_params(m["engine_id"], m["boots"], m["time"], m["user"], b"", b"")
+    return vber.enc_v3_message(m["msg_id"], m["max_size"], m["flags"], 3, usm,
+                               vber.enc_scoped_pdu(m["ctx_engine"], m["ctx_name"], pdu_with(m["pdu"])))
 
 
 def build_tree(node, depth=0):
@@ -346,7 +396,7 @@ def deliver(base, mutant, use_guard=True):
         agent.mangle = mangle
         with vclock.fixed(1_700_000_000):
             try:
-                vworld.run(_op(client, what))
+                vworld.run(_op(client, what, py=(path == "pyresponse")))
                 info["outcome"] = "ok"
             except vsandbox.HangDetected:
                 raise
@@ -454,6 +504,20 @@ def run_stubborn(case) -> Result:
     return Result(None, True, classes, observations={"max_datagrams_against_stubborn_peer": st8["n"]})
 
 
+class _Overlaps:
+    """overlap chains of growing depth in every unauthenticated (or, for 'inner', authenticated) position"""
+
+    def __init__(self, tier):
+        self.tier = tier
+
+    def __iter__(self):
+        bases = [b for b in BASES(self.tier) if b[0] != "udp"] + [("pyresponse", "v2c", "get"), ("pyresponse", "v2c", "multiget")]
+        for base in bases:
+            for where in ("value", "list"):
+                for k in (1, 2, 6, 10, 14, 18, 22, 26, 31):
+                    yield dict(base=list(base), mut=["overlap", k, where])
+
+
 class _Stubborn:
     def __iter__(self):
         for pname in ("v3a", "v3p", "v3n", "v2c"):
@@ -479,7 +543,10 @@ def run_case(case, use_guard=True) -> Result:
     vsandbox.limit_memory(3 << 30)
     base = tuple(case["base"])
     data = base_bytes(base)
-    mutant = mutate(data, case["mut"])
+    if case["mut"][0] == "overlap":
+        mutant = overlap_mutant(base, data, case["mut"][1], case["mut"][2])
+    else:
+        mutant = mutate(data, case["mut"])
     classes = ["path=" + base[0], "proto=" + base[1], "mut=" + case["mut"][0]]
     if mutant is None:
         return Result(None, False, classes + ["noop"])
@@ -491,8 +558,7 @@ def run_case(case, use_guard=True) -> Result:
     except vsandbox.HangDetected:
         vworld._LOOP = None
         return Result("%s: processing the %d-octet datagram did not finish within %.1f s of CPU time (datagram %s)" % (
-            "/".join(base), n, _budget(n) + 1.0, mutant.hex()[:300]), True, classes + ["HANG"], known="x690_indefinite_no_terminator"
-            if _is_f20(mutant) else None)
+            "/".join(base), n, _budget(n) + 1.0, mutant.hex()[:300]), True, classes + ["HANG"], known=_known_for(base, mutant))
     if vsandbox.GUARD_HITS[0] != hits0:
         classes.append("x690_guard_hit")
     nontrivial = info["outcome"] == "exc" or (case["mut"][0] == "sub")
@@ -504,7 +570,7 @@ def run_case(case, use_guard=True) -> Result:
         return Result("%s: MemoryError while processing a %d-octet datagram (%s)" % (head, n, mutant.hex()[:300]), nontrivial, classes, key=key)
     if info["cpu"] > _budget(n):
         return Result("%s: %.2f s of CPU time for a %d-octet datagram (budget %.2f s) (%s)" % (head, info["cpu"], n, _budget(n), mutant.hex()[:300]),
-                      nontrivial, classes, key=key)
+                      nontrivial, classes, key=key, known=_known_for(base, mutant))
     if info["rss_kb"] > _mem_budget_kb(n):
         return Result("%s: resident memory grew by %d MiB while processing a %d-octet datagram (%s)" % (
             head, info["rss_kb"] // 1024, n, mutant.hex()[:300]), nontrivial, classes, key=key)
@@ -516,11 +582,61 @@ def run_case(case, use_guard=True) -> Result:
 
 
 def _is_f20(data):
-    """trigger of the known finding: an indefinite-length octet with no 00 00 after it"""
-    for i in range(1, len(data)):
-        if data[i] == 0x80 and data.find(b"\x00\x00", i - 1) == -1:
+    """trigger of the known finding x690_indefinite_no_terminator: an octet 0x80 in a LENGTH position (reached by walking the
+    TLV structure from the top as a decoder does; security parameters and other OCTET STRINGs that hold a SEQUENCE are
+    entered) with no 00 00 after it"""
+    def walk(start, end, depth):
+        pos = start
+        while pos + 2 <= end and depth < 60:
+            tag = data[pos]
+            first = data[pos + 1]
+            if first == 0x80:
+                return data.find(b"\x00\x00", pos + 2) == -1
+            if first < 0x80:
+                cs, n = pos + 2, first
+            else:
+                k = first & 0x7F
+                if pos + 2 + k > end:
+                    return False
+                cs, n = pos + 2 + k, int.from_bytes(data[pos + 2:pos + 2 + k], "big")
+            ce = min(cs + n, end)      # (never beyond the enclosing TLV: every octet is visited once)
+            if (tag & 0x20 or (tag == 0x04 and ce - cs >= 2 and data[cs] == 0x30)) and walk(cs, ce, depth + 1):
+                return True
+            pos = cs + n
+        return False
+    return walk(0, len(data), 0)
+
+
+def _has_overlap(data, start=0, end=None, depth=0):
+    """trigger of the known finding x690_overlapping_children: some TLV announces content that ends beyond the end of the
+    constructed TLV it sits in"""
+    end = len(data) if end is None else end
+    pos = start
+    while pos + 2 <= end and depth < 200:
+        tag = data[pos]
+        first = data[pos + 1]
+        if first < 0x80:
+            cs, n = pos + 2, first
+        else:
+            k = first & 0x7F
+            if k == 0 or pos + 2 + k > end:
+                return False
+            cs, n = pos + 2 + k, int.from_bytes(data[pos + 2:pos + 2 + k], "big")
+        if cs + n > end:
+            return depth > 0 and cs + n <= len(data)
+        if tag & 0x20 and _has_overlap(data, cs, cs + n, depth + 1):
             return True
+        pos = cs + n
     return False
+
+
+def _known_for(base, mutant):
+    if _is_f20(mutant):
+        return "x690_indefinite_no_terminator"
+    if base[0] == "pyresponse" and _has_overlap(mutant):
+        # (only on the wrapper's path: the raw client hands a nested value to the caller without walking through it)
+        return "x690_overlapping_children"
+    return None
 
 
 def _replay_unguarded(case):
@@ -717,7 +833,8 @@ def history_unit(check, stats, *, label, known_ids=(), n=150, size=20000):
 
 def units(tier, seed):
     us = [Unit("history", history_unit, label="history", n=150 if tier == "quick" else 600),
-          Unit("stubborn", enumeration_unit, cases=_Stubborn(), label="stubborn", exhaustive=False)]
+          Unit("stubborn", enumeration_unit, cases=_Stubborn(), label="stubborn", exhaustive=False),
+          Unit("overlaps", enumeration_unit, cases=_Overlaps(tier), label="overlaps", exhaustive=False, stop_after=40)]
     if tier == "thorough":
         import vfuzz
 
